@@ -179,12 +179,12 @@ def run_case(case, part):
 
 
 def build_cases(quick):
-    nmax, bmax = (24, 28) if quick else (40, 45)
+    nmax, bmax = (24, 28) if quick else (96, 100)
     cases = [
         dict(kind="batch_tasks", n_tasks=n, n_batches=nb, start=st, arr=a, args=g)
         for n in range(1, nmax + 1)
         for nb in range(1, bmax + 1)
-        for st in (0, 1, 7)
+        for st in (0, 1, 7, n + 3)  # (the last one: a start index beyond the task count)
         for a in (False, True)
         for g in (False, True)
     ]
